@@ -771,9 +771,12 @@ func (sp *StreamParser) ExecCmd(cb RdbObjExecutor) {
 		// * (deleted flag in the entry flags set). So the total number of items
 		// * actually inside the listpack (both deleted and not) is count+deleted.
 
-		count := lp.NextInteger()              // items count
-		deleted := lp.NextInteger()            // deleted count
-		numFields := lp.NextInteger()          // num fields
+		count := lp.NextInteger()     // items count
+		deleted := lp.NextInteger()   // deleted count
+		numFields := lp.NextInteger() // num fields
+		if numFields < 0 || numFields > int64(lp.NumElements()) {
+			panicIfErr(fmt.Errorf("stream master entry : invalid number of fields %d", numFields))
+		}
 		fields := make([][]byte, 0, numFields) // fields
 		for j := int64(0); j < numFields; j++ {
 			fields = append(fields, lp.Next())
